@@ -195,10 +195,10 @@ func c06One(env *Env, m *wvlib.Model, c *C06Case) {
 			}
 		}
 	}
-	// ---- model (the sequential schedule). A directory replaced by a symlink makes the outcome depend on
-	// how validator and healer interleave (entries reached through the symlink are judged healthy, then the
-	// healer replaces the symlink): that case is compared by the oracle only.
-	if c.Shape != "missing" && dmgClass != "dir->symlink-to-moved-copy" && c.ManyDirs+c.ManyLinks <= 200 {
+	// ---- model (the sequential schedule). Since the repair of F15 the outcome no longer depends on how validator
+	// and healer interleave, also when a directory was replaced by a symlink (theorem
+	// heal_restores_any_tree_any_schedule): every case is compared.
+	if c.Shape != "missing" && c.ManyDirs+c.ManyLinks <= 200 {
 		sl, dl := base+"/signed.lst", base+"/disk.lst"
 		writeSignedListing(sl, sig.Container, b, env.Scratch)
 		writeDiskListing(dl, before)
